@@ -29,6 +29,13 @@ CLAIMED['C09'] = dict(
     note='Trusted: SipHash / std HashMap (equal write traces => same bucket, Eq decides within it); num crates implement Z/Q; abstract doubles. '
          'Outside: dict-valued keys, string/bytes keys, the dictionary builtins beyond their use of ObjKey Eq/Hash.',
     design='§7 C09', technique='symbolic execution of rustc MIR + SMT (z3); hasher as trace recorder')
+CLAIMED['C07'] = dict(
+    text='Bounded symbolic model checking of the real MIR of the NNum operators (+ - * % in all four owned/borrowed impls, /, div_floor, mod_floor), the rounding family, '
+         'numerator/denominator/abs/signum/neg and the builtin closures % // %% /! for EVERY ordered pair of operand levels (int Small/Big, rational, float, complex) and '
+         'every value: result level = higher operand level; int and rational levels are exact over Q (// floors, %% = a - b*floor(a/b), / exact with float fallback on a zero divisor); '
+         'float/complex levels apply the same operation to the converted operands (routing and operand order; float arithmetic is uninterpreted); zero divisors raise.',
+    note='Trusted: num-rational/num-bigint implement Q/Z; conversions to f64 as modelled. Outside: float rounding, ^ with non-integer exponent, vector broadcasting wrappers, lowest-terms normalisation.',
+    design='§7 C07', technique='symbolic execution of rustc MIR + SMT (z3) over Int/Real, uninterpreted float operations')
 NOT_APPLICABLE = {
  'C13': 'sequence library vs executable specification: the deciding content is std collections glued by one-line closures over whole sequences; not encodable as a bounded solver query over noulith code (DESIGN §9); parts decided under C08/C09/C10/C11/C14',
  'C17': 'freeze: semantic equivalence of two recursive traversals over programs; a bounded solver query cannot carry it (DESIGN §9)',
